@@ -111,6 +111,24 @@ def area_fn(W, axis):
     return Aa
 
 
+def cut_volume_weights(dets, V, sizes):
+    """Modular cut for the volume weights.  Lemma A (proved here): the weights cached by the real
+    place_on_grid equal the spec cell volumes V = wx*wy*wz, which are positive.  The detectors then
+    continue with an ARBITRARY positive weight array in place of the cached one (Lemma B is proved
+    for all positive weights, in particular for V); this keeps the mean's denominator linear."""
+    from vc.obl import prove_arrays_equal
+
+    c = ctx()
+    spec = A.SymArray(tuple(sizes), lambda idx: V(*[A._wrap_idx(i) for i in idx]), "real")
+    for d in dets:
+        prove_arrays_equal(f"cell_volume_weights==wx*wy*wz[{d.name}]", d._cached_cell_volume_weights, spec)
+    for x, y, z in cells(sizes):
+        c.prove(f"cell_volume>0[{x},{y},{z}]", V(x, y, z) > 0)
+    Vf = A.fresh_array("Vcell", tuple(sizes), fact=lambda v, idx: v > 0)
+    out = [d.aset("_cached_cell_volume_weights", Vf, create_new_ok=True) for d in dets]
+    return out, (lambda x, y, z: Vf.at_index((A._raw_index(x), A._raw_index(y), A._raw_index(z))))
+
+
 def cells(sizes):
     return list(itertools.product(*[range(n) for n in sizes]))
 
